@@ -342,7 +342,30 @@ def _next_position(index, rep, geo) -> None:
                 got = gi.call(gn, {ps[0]: P('py', 'px'), ps[1]: ('O', o),
                                    ps[2]: ('E', 'Action', a)})
             except AnalysisError as e:
-                raise AnalysisError(f'get_next_position outside the grammar: {e}')
+                # a guard on the sign / size of a coordinate cannot be read for a symbolic
+                # position: folded at constant positions instead.  A position where the result
+                # differs from the pose algebra is a counterexample; agreement at every
+                # sampled position proves nothing (exit 2)
+                wit = None
+                dd = mv(geo.mat(o), geo.delta[direction[a]]) if a in direction else (0, 0)
+                for py in (0, 1, 4, -1, -3):
+                    for px in (0, 1, 4, -1, -3):
+                        try:
+                            gc = gi.call(gn, {ps[0]: ('P', (Aff.const(py), Aff.const(px))),
+                                              ps[1]: ('O', o), ps[2]: ('E', 'Action', a)})
+                        except AnalysisError:
+                            raise AnalysisError(f'get_next_position outside the grammar: {e}')
+                        if gc != ('P', (Aff.const(py + dd[0]), Aff.const(px + dd[1]))) and \
+                                wit is None:
+                            wit = (py, px, gc)
+                if wit is None:
+                    raise AnalysisError(f'get_next_position outside the grammar: {e}')
+                rep.violation('C18.R7', UTILS, 'get_next_position', gn.node.lineno,
+                              f'heading {o}, {a} at ({wit[0]}, {wit[1]}) -> {wit[2]}',
+                              f'heading {o}, action {a}, position ({wit[0]}, {wit[1]}): the '
+                              f'tentative next position is {wit[2]}, the pose algebra gives '
+                              f'({wit[0] + dd[0]}, {wit[1] + dd[1]})')
+                continue
             if a in direction:
                 d = mv(geo.mat(o), geo.delta[direction[a]])
                 want = ('P', (Aff.sym('py') + d[0], Aff.sym('px') + d[1]))
